@@ -52,8 +52,8 @@ func backendClass(b string) string {
 // opClass reduces a reload label to the class used in signatures.
 func opClass(o *OpRec, timeoutMs int) string {
 	c := "partial"
-	if o.Op.Full {
-		c = "full"
+	if o.Op.Full && !(o.Op.Fault == "" && o.Op.SamePath == 2) {
+		c = "full" // a full reload naming the served path is an in-place reload like a partial one
 	}
 	if o.Op.Fault != "" {
 		c += "-" + o.Op.Fault
